@@ -340,6 +340,22 @@ func init() {
 			gn.W.R.Probe("token-burst")
 			return last
 		}},
+		// a backer of a pillar moves most of its ZNN to a backer of another pillar: the ranking of the
+		// pillars by weight (which the election uses) changes
+		Flow{"swing-weight", func(gn *Gen, n *simnode.Node) *nom.AccountBlock {
+			t := gn.W.R.T
+			backers := []types.Address{g.User1.Address, g.User2.Address, g.User3.Address, g.User4.Address, g.User5.Address}
+			from := backers[t.Choose(len(backers))]
+			to := backers[t.Choose(len(backers))]
+			bal := gn.balance(n, from, types.ZnnTokenStandard)
+			if from == to || bal.Sign() <= 0 {
+				return nil
+			}
+			amt := new(big.Int).Mul(bal, big.NewInt(int64(50+t.Choose(50))))
+			amt.Div(amt, big.NewInt(100))
+			gn.W.R.Probe("swing-weight")
+			return gn.do(n, "transfer", from, to, types.ZnnTokenStandard, amt, nil)
+		}},
 		// a holder of at least 2^63 units of a user token moves boundary amounts through calls that fail at
 		// receive time (refund path), succeed (burn), or simply change hands
 		Flow{"huge-amount-call", func(gn *Gen, n *simnode.Node) *nom.AccountBlock {
